@@ -37,7 +37,15 @@ func (p *Prov) Name() string { return fmt.Sprintf("P%d", p.ID) }
 
 type Field struct {
 	Name string
-	Type string
+	Type string // a type of the universe; "AT<k>" is a declared alias of *T<k> (type AT<k> = *T<k>)
+}
+
+// Canon resolves the alias spelling of a type ("AT3" names the same type as "*T3").
+func Canon(t string) string {
+	if strings.HasPrefix(t, "AT") {
+		return "*T" + strings.TrimPrefix(t, "AT")
+	}
+	return t
 }
 
 // Decl is one kessoku.Inject declaration together with the user package it lives in.
@@ -265,7 +273,7 @@ func Reference(d *Decl) *Ref {
 			if !isExported(f.Name) {
 				continue
 			}
-			add(f.Type, supplier{prov: p, field: f.Name})
+			add(Canon(f.Type), supplier{prov: p, field: f.Name})
 		}
 	}
 	r.sup = sup
@@ -363,7 +371,7 @@ func Reference(d *Decl) *Ref {
 		// a needed provider requires one of its field types.
 		r.Ambiguous = true
 		for _, f := range d.Structs[strings.TrimPrefix(orphan, "*")] {
-			if paramSeen[f.Type] {
+			if paramSeen[Canon(f.Type)] {
 				r.Ambiguous = false
 			}
 		}
